@@ -14,7 +14,7 @@
    a Boolean/Number"), 15.9.5 (Date), 15.10.6 (RegExp), 15.11.4.4 (Error.
    prototype.toString: "If Type(O) is not Object, throw a TypeError"), 15.3.4
    (Function.prototype: this must be callable), 15.2.4 (Object.prototype),
-   B.2.3 (substr: ToString(this) without CheckObjectCoercible).  Functions
+   B.2.3 (substr; ES5.1's informative annex omits the coercibility check, ES2015 B.2.3.1 has it and since dc0085d so has otto: undefined and null are rejected).  Functions
    that are not in ES5 (Object.assign, Object.values, startsWith, trimStart...,
    Math.trunc..., Number.isNaN, console.*, RegExp.prototype.compile) carry the
    ES2015 discipline, or otto's own where there is none. *)
@@ -206,7 +206,7 @@ Definition table : list (string * disc * disc) := [
   ("String.prototype.slice", DGeneric, DGeneric);
   ("String.prototype.split", DGeneric, DGeneric);
   ("String.prototype.startsWith", DGeneric, DGeneric);
-  ("String.prototype.substr", DNone, DNone);
+  ("String.prototype.substr", DGeneric, DGeneric);
   ("String.prototype.substring", DGeneric, DGeneric);
   ("String.prototype.toLocaleLowerCase", DGeneric, DGeneric);
   ("String.prototype.toLocaleUpperCase", DGeneric, DGeneric);
@@ -249,7 +249,10 @@ Definition table : list (string * disc * disc) := [
   ("%fn.caller<get>", DNone, DNone);
   ("%fn.caller<set>", DNone, DNone);
   ("%bound.caller<get>", DNone, DNone);
-  ("%bound.caller<set>", DNone, DNone)
+  ("%bound.caller<set>", DNone, DNone);
+  ("%fn.caller<get>.caller<get>", DNone, DNone);
+  ("%arguments.callee.caller<get>", DNone, DNone);
+  ("%arguments.callee.caller<get>.caller<get>", DNone, DNone)
 ].
 Close Scope string_scope.
 
